@@ -298,14 +298,14 @@ def flatten_stub(nc, deep):
         sret, selfp, axis, depth = argv
         nm, info = nc.content_info(selfp, st, eng)
         st.trace = st.trace + ((st.pc, 'offsets_and_flattened', (axis, depth)),)
-        L = nodeh.concrete(info['length'], 'length of the content asked to flatten')
-        atoms = [z3.simplify(z3.Select(info['atoms'], BV(k))) for k in range(L)]
         rec = st.mem.o[sret.obj]
         k = z3.BitVec('k!', 64)
         if deep:
             offs_terms = []
-            flat = nc.fresh_content(eng, st, BV(L), z3.Lambda([k], FLAT(z3.Select(info['atoms'], k))), derived='flat')
+            flat = nc.fresh_content(eng, st, info['length'], z3.Lambda([k], FLAT(z3.Select(info['atoms'], k))), derived='flat')
         else:
+            L = nodeh.concrete(info['length'], 'length of the content asked to flatten')
+            atoms = [z3.simplify(z3.Select(info['atoms'], BV(k_))) for k_ in range(L)]
             offs_terms = [BV(0)]
             for a in atoms:
                 nc.m.s.add(LEN(a) >= 0, LEN(a) <= 2)
@@ -400,7 +400,7 @@ def jobs_for(prop, tier):
     if prop == 'C01':
         return jobs_c01(tier) + jobs_carry(tier)
     if prop == 'C05':
-        return jobs_c05(tier) + [j for j in jobs_option_below(tier) if j[1][3] in ('num', 'localindex')]
+        return jobs_c05(tier) + [j for j in jobs_option_below(tier) if j[1][3] in ('num', 'localindex')] + jobs_flatten(tier)
     if prop == 'C09':
         return jobs_c09(tier) + [j for j in jobs_option_below(tier) if j[1][3] in ('rpad', 'rpad_and_clip')] + jobs_simplify(tier)
     if prop == 'C11':
@@ -1699,4 +1699,110 @@ def jobs_carry(tier):
     for cls, dims, variant in cases:
         for n in ((0, 2) if tier == 'quick' else (0, 1, 2, 3)):
             js.append((h_carry, (cls, dims, variant, n), 600))
+    return js
+
+
+# ------------------------------------------------------------------------------------------------ C05: flatten through list nodes
+@guard
+def h_list_flatten(cls, dims, mode, off0=0):
+    """offsets_and_flattened of a list node.  mode 'at': flattening this very level - zero-based offsets with the list lengths and the covered
+    content in order.  'inner': flattening the level just below (the content's elements are lists of LEN <= 2 items): list i becomes the
+    concatenation of the items of its elements.  'deep': flattening further down - same lists around what the content returns."""
+    lens0 = node_lens(cls, dims)
+    total = sum(lens0)
+    nc = NodeCtx(['LOA', 'LA', 'RA', 'IA', 'IDX', 'CNT', 'UTL', 'KD', 'IDS', 'NA'], [], unwind=max(12, 3 * total + 3 * len(lens0) + off0 + 12))
+    LEN, ITEM, FLAT = flatten_stub(nc, mode == 'deep')
+    this, lists, starts, offs, short = list_node(nc, cls, dims)
+    if mode == 'inner':
+        if cls == 'ListOffsetArray64':
+            nc.m.assume(offs[0] == off0)
+        elif cls == 'ListArray64':
+            for i, st_ in enumerate(starts):        # concrete, gapped layout: list i starts at off0 + (sum of earlier lengths) + i
+                nc.m.assume(st_ == off0 + sum(lens0[:i]) + i)
+        clen = (off0 + total + len(lens0) + 1) if cls != 'RegularArray' else dims[0] * dims[1]
+        nc.m.assume(nc.lencontent == clen)
+    nc.m.record('ret', {})
+    axis = {'at': 1, 'inner': 2, 'deep': 3}[mode]
+    out = nc.m.call('_ZNK7awkward%s21offsets_and_flattenedEll' % short, [Ptr('ret', 0), this, BV(axis), BV(0)])
+    obls = [('flatten does not raise', out.raised)]
+    roffs, _ = nc.index_terms(out.mem, Ptr('ret', 0), 'returned offsets')
+    p = z3.BitVec('p!pos', 64)
+    flatatoms = [e.val for lst in lists for e in lst]
+    for g, res in nodeh.decode_cases(nc, out.mem, nc.m.cell('ret', 56)):
+        g = z3.And(g, z3.Not(out.raised))
+        if res is None:
+            obls.append(('a flattened content is returned', g))
+            continue
+        if mode == 'at':
+            want, acc = [BV(0)], 0
+            for L in lens0:
+                acc += L; want.append(BV(acc))
+            if len(roffs) != len(want):
+                obls.append(('offsets have one entry per list plus one', g))
+            else:
+                obls += [('offsets[%d] is the running sum of the list lengths' % i, z3.And(g, a != b)) for i, (a, b) in enumerate(zip(roffs, want))]
+            ln, el = opaque_seq(res)
+            obls.append(('the flattened content has the summed length', z3.And(g, ln != total)))
+            obls += [('flattened element %d is element %d of the lists in order' % (k, k), z3.And(g, el(BV(k)) != a)) for k, a in enumerate(flatatoms)]
+        elif mode == 'deep':
+            obls.append(('no offsets are returned below the list level', z3.And(g, z3.BoolVal(len(roffs) != 0))))
+            obls += [(nm, z3.And(g, c)) for nm, c in compare(value(res), [[Elem(FLAT(e.val)) for e in lst] for lst in lists])]
+        else:
+            obls.append(('no offsets are returned when flattening below this level', z3.And(g, z3.BoolVal(len(roffs) != 0))))
+            if res['cls'] != 'listoffset' or len(res['offsets']) != len(lens0) + 1:
+                obls.append(('the result keeps one list per list', g))
+                continue
+            ro = res['offsets']
+            ln, el = opaque_seq(res['content'])
+            for i, lst in enumerate(lists):
+                cnt = BV(0)
+                body = BV(-7)
+                cums = []
+                for e in lst:
+                    cums.append(cnt)
+                    cnt = cnt + LEN(e.val)
+                for e, c0 in zip(lst, cums):
+                    body = z3.If(p >= c0, ITEM(e.val, p - c0), body)
+                obls.append(('list %d holds as many items as its elements hold together' % i, z3.And(g, ro[i + 1] - ro[i] != cnt)))
+                obls.append(('item p of list %d is item (p - start) of the element that covers p' % i, z3.And(g, p >= 0, p < cnt, el(ro[i] + p) != body)))
+
+    def replay(model, ent):
+        lc = model.eval(nc.lencontent, model_completion=True).as_signed_long()
+        if lc > 100:
+            return False, 'content too long to replay', {}
+        head, inp = node_program(nc, model, lc)
+        if mode == 'at':
+            return akrun_check(head + 'flatten 1', [x for lst in inp for x in lst], '%s %s::flatten(axis=1)' % (cls, inp))
+        ntoks = head.split()
+        cnt = int(ntoks[1])
+        if mode == 'inner':
+            h2, inner = inner_lists(cnt)
+            exp = [[y for x in lst for y in inner[x]] for lst in inp]
+            return akrun_check(h2 + ' '.join(ntoks[2 + cnt:]) + ' flatten 2', exp, '%s %s over lists::flatten(axis=2)' % (cls, inp))
+        rows = [[[1000 * k + 10 * r + c for c in range((k + r) % 3)] for r in range(k % 2 + 1)] for k in range(cnt)]
+        flat1 = [r for rr in rows for r in rr]
+        vals = [x for r in flat1 for x in r]
+        oi, acc = [0], 0
+        for r in flat1:
+            acc += len(r); oi.append(acc)
+        oo, acc = [0], 0
+        for rr in rows:
+            acc += len(rr); oo.append(acc)
+        h2 = 'i64 %s listoffset64 %s listoffset64 %s ' % (fullnative.ints(vals), fullnative.ints(oi), fullnative.ints(oo))
+        exp = [[[x for r in rows[e] for x in r] for e in lst] for lst in inp]
+        return akrun_check(h2 + ' '.join(ntoks[2 + cnt:]) + ' flatten 3', exp, '%s %s over lists of lists::flatten(axis=3)' % (cls, inp))
+    return mdischarge(nc.m, '%s::offsets_and_flattened shape=%s %s off0=%d' % (cls, ','.join(map(str, dims)), mode, off0), obls, [], replay=replay,
+                      prefer=[nc.lencontent <= 24] + [o <= 20 for o in offs],
+                      extra=dict(bounds='shape %s concrete (case split); origins symbolic (concrete for mode inner); inner list lengths <= 2 (uninterpreted)' % (dims,)))
+
+
+def jobs_flatten(tier):
+    js = []
+    shapes = [(2, 0, 1), (0,), (1, 2)] if tier == 'quick' else [l for n in (1, 2, 3) for l in itertools.product(range(3), repeat=n)]
+    regs = [(2, 2), (0, 3)] if tier == 'quick' else [(s_, l_) for s_ in range(3) for l_ in range(3)]
+    for cls in ('ListOffsetArray64', 'ListArray64', 'RegularArray'):
+        for d in (regs if cls == 'RegularArray' else shapes):
+            for mode in ('at', 'inner', 'deep'):
+                for off0 in ((0, 1) if mode == 'inner' and cls != 'RegularArray' else (0,)):
+                    js.append((h_list_flatten, (cls, d, mode, off0), 600))
     return js
